@@ -36,12 +36,20 @@ def cfg_sets(cfg):
     def ints(name):
         return [int(x) for x in re.findall(r"-?\d+", re.search(r"%s = \{([^}]*)\}" % name, txt).group(1))]
     return dict(maxops=int(re.search(r"MaxOps = (\d+)", txt).group(1)), ticks=ints("TickAmounts"), timeouts=ints("Timeouts"), thresholds=ints("Thresholds"),
-                ages=ints("Ages"), prevfees=int(re.search(r"PrevFees = (\d+)", txt).group(1)), addfee=int(re.search(r"AddFee = (\d+)", txt).group(1)),
+                ages=ints("Ages"), addfee=int(re.search(r"AddFee = (\d+)", txt).group(1)),
                 kinds=re.findall(r'"(\w+)"', re.search(r"OpKinds = \{([^}]*)\}", txt).group(1)), calls=int(re.search(r"Calls = (\d+)", txt).group(1)))
 
 
-def key_of(to, th, age, h, p):
-    return vflib.canon(dict(to=to, th=th, age=age, h=[dict(e=x["e"], a=x["a"], b=x["b"], c=x["c"]) for x in h], p=p))
+WB = 10 ** 9
+
+
+def wv(w):
+    """wide value {q, r} -> integer"""
+    return w["q"] * WB + w["r"]
+
+
+def key_of(to, th, age, pf, h, p):
+    return vflib.canon(dict(to=to, th=th, age=age, pf=wv(pf), h=[dict(e=x["e"], a=x["a"], b=x["b"], c=wv(x["c"])) for x in h], p=p))
 
 
 def make_runs(rng, P, n):
@@ -61,7 +69,7 @@ def make_runs(rng, P, n):
     for i in range(n):
         sched = [rng.choice(ops) for _ in range(P["maxops"])] + [dict(k="int", d=0)] * P["calls"]
         startk = 0 if rng.random() < 0.7 else rng.randrange(P["maxops"] + 2)
-        runs.append(dict(to=rng.choice(P["timeouts"]), th=rng.choice(P["thresholds"]), age=rng.choice(P["ages"]), sched=sched, startk=startk,
+        runs.append(dict(to=rng.choice(P["timeouts"]), th=rng.choice(P["thresholds"]), age=rng.choice(P["ages"]), pf=rng.choice(P["pfs"]), sched=sched, startk=startk,
                          calls=P["calls"], dseed=rng.randrange(256)))
     return runs
 
@@ -76,7 +84,7 @@ def classify(t, allowed):
     trunc = h[:ri[t.get("calls", 1) - 1] + 1]
     k = sum(1 for e in trunc if e["e"] not in ("S", "R"))
     cands = ["none"] + ([t["sched"][k]["k"]] if k < len(t["sched"]) else [])
-    return trunc, any(key_of(t["to"], t["th"], t["age"], trunc, p) in allowed for p in cands)
+    return trunc, any(key_of(t["to"], t["th"], t["age"], t["pf"], trunc, p) in allowed for p in cands)
 
 
 KINDS = ("template on a new tip", "template on the same tip", "nothing")
@@ -92,16 +100,19 @@ def load_allowed(ctx, cfg, name):
     with open(r.emit_path) as f:
         for l in f:
             o = json.loads(l)
-            allowed.add(key_of(o["to"], o["th"], o["age"], o["h"], o["p"]))
+            allowed.add(key_of(o["to"], o["th"], o["age"], o["pf"], o["h"], o["p"]))
     if not allowed:
         raise vflib.InfraError("no outcome emitted by " + cfg)
     return allowed
 
 
-def run_config(ctx, binary, cfg, nruns, rng, obs_kinds):
+def run_config(ctx, binary, cfg, nruns, rng, obs_kinds, fee_cases):
     P = cfg_sets(cfg)
     # ---- safety on every interleaving + the set of admitted outcomes
     allowed = load_allowed(ctx, cfg, "outcomes_" + cfg[:-4])
+    # the fee classes of the previous template are those the configuration's rows carry
+    pfs = sorted({json.loads(k)["pf"] for k in allowed})
+    P["pfs"] = [dict(q=v // WB, r=v % WB) for v in pfs]
     kinds = collections.Counter(kind_of(json.loads(k)["h"][-1]) for k in allowed)
     ctx.extra.setdefault("outcomes_admitted_by_spec", {})[cfg] = dict(total=len(allowed), by_kind_of_last_return=dict(kinds))
     if len(kinds) < 3:
@@ -115,7 +126,11 @@ def run_config(ctx, binary, cfg, nruns, rng, obs_kinds):
             raise vflib.InfraError("%s: the strict model admits %d outcomes the permissive one does not" % (cfg, len(strict - allowed)))
     # ---- the real waitNext under seeded schedules
     nshards = 4
-    cases = [dict(prevfees=P["prevfees"], addfee=P["addfee"], runs=make_runs(rng, P, nruns)) for _ in range(nshards)]
+    # a node has about 45 mature 50 BTC coinbases: runs with large previous fees are spread over more nodes
+    per_node = 20 if max(pfs) >= 10 ** 6 else nruns
+    ncases = max(nshards, (nshards * nruns + per_node - 1) // per_node)
+    nruns = min(nruns, per_node)
+    cases = [dict(addfee=P["addfee"], runs=make_runs(rng, P, nruns)) for _ in range(ncases)]
     res = ctx.run_harness(binary, "run", cases, nproc=min(nshards, vflib.free_cpus()), name="waitnext_" + cfg[:-4], timeout=3000)
     for m in res["mismatches"]:
         raise vflib.InfraError("harness exception: %s" % m.get("why"))
@@ -124,13 +139,29 @@ def run_config(ctx, binary, cfg, nruns, rng, obs_kinds):
     for t in res["traces"]:
         ctx.evaluations += 1
         trunc, ok = classify(t, allowed)
-        key = key_of(t["to"], t["th"], t["age"], trunc, "-")
+        key = key_of(t["to"], t["th"], t["age"], t["pf"], trunc, "-")
         seen[key] += 1
         for e in trunc:
             if e["e"] == "R":
                 obs_kinds[kind_of(e)] += 1
         if len(trunc) > 2:
             ctx.nontrivial.add(vflib.digest(key))
+        # same-tip waits with a finite threshold, by size class of the previous template's fees and by what the fees did
+        pfv = wv(t["pf"])
+        rs = [e for e in trunc if e["e"] == "R"]
+        if rs and t["th"] != 999999999 and not any(e["e"] in ("tip", "int") for e in trunc[:trunc.index(rs[0])]):
+            cls = "below 2^31" if pfv < 2 ** 31 else "in [2^31, 2^32)" if pfv < 2 ** 32 else "from 2^32"
+            r0 = rs[0]
+            adds = sum(1 for e in trunc[:trunc.index(r0)] if e["e"] == "add")
+            if r0["a"] == 1 and r0["b"] == 0:
+                rise = wv(r0["c"]) - pfv
+                what = "returned: fees rose by exactly the threshold" if rise == t["th"] else "returned: fees rose by more than the threshold" if rise > t["th"] else "returned: fees rose by LESS than the threshold"
+            elif r0["a"] == 0:
+                what = "nothing: fees unchanged" if adds == 0 else "nothing: fees rose by less than the threshold" if adds * P["addfee"] < t["th"] else "nothing: although fees rose by the threshold"
+            else:
+                what = None
+            if what:
+                fee_cases["%s / %s" % (cls, what)] += 1
         if not ok:
             rejected.setdefault(key, (t, trunc))
         elif strict is not None and not classify(t, strict)[1]:
@@ -138,20 +169,21 @@ def run_config(ctx, binary, cfg, nruns, rng, obs_kinds):
     ctx.traces += len(res["traces"])
     ctx.extra.setdefault("observed", {})[cfg] = dict(runs=len(res["traces"]), distinct_schedule_outcome_pairs=len(seen), rejected=len(rejected))
     for key, (t, trunc) in list(rejected.items())[:4]:
-        spec = dict(to=t["to"], th=t["th"], age=t["age"], sched=t["sched"], startk=t["startk"], calls=t.get("calls", 1), dseed=t["dseed"])
-        case = dict(prevfees=P["prevfees"], addfee=P["addfee"], runs=[spec] * 40)
+        spec = dict(to=t["to"], th=t["th"], age=t["age"], pf=t["pf"], sched=t["sched"], startk=t["startk"], calls=t.get("calls", 1), dseed=t["dseed"])
+        case = dict(addfee=P["addfee"], runs=[spec] * (15 if wv(t["pf"]) >= 10 ** 6 else 40))
 
         def confirm(case=case):
             r2 = ctx.run_harness(binary, "run", [case], nproc=1, name="confirm")
             return any(not classify(x, allowed)[1] for x in r2["traces"]) or bool(r2["aborts"])
-        what = ("waitNext(timeout %s, fee threshold %s) with the tip %s s old, schedule %s: observed log %s is not an outcome of any interleaving of the WaitNext specification" % (
-            "none" if t["to"] == 1000000 else "%d s" % t["to"], "MAX_MONEY" if t["th"] == 999999999 else t["th"], t["age"],
-            [(o["k"], o["d"]) if o["d"] else o["k"] for o in t["sched"]], [(e["e"], e["a"], e["b"], e["c"]) if e["e"] == "R" else e["e"] for e in trunc]))
+        what = ("waitNext(timeout %s, fee threshold %s) on a template with %d sat of fees, the tip %s s old, schedule %s: observed log %s is not an outcome of any interleaving of the "
+                "WaitNext specification" % (
+                    "none" if t["to"] == 1000000 else "%d s" % t["to"], "MAX_MONEY" if t["th"] == 999999999 else t["th"], wv(t["pf"]), t["age"],
+                    [(o["k"], o["d"]) if o["d"] else o["k"] for o in t["sched"]], [(e["e"], e["a"], e["b"], wv(e["c"])) if e["e"] == "R" else e["e"] for e in trunc]))
         ctx.violation("waitnext:%s" % vflib.digest(key), what, dict(adapter="waitnext", mode="run", args=[], case=case, cfg=cfg, observed=trunc), confirm=confirm)
     if res["traces"]:
         t = max(res["traces"][:50], key=lambda t: len([e for e in t["h"] if e["e"] == "R" and e["a"] == 1]) * 10 + len(t["h"]))
-        ctx.sample(dict(config=cfg, timeout=t["to"], threshold=t["th"], age=t["age"], schedule=[o["k"] for o in t["sched"]],
-                        log=[e["e"] if e["e"] != "R" else ["R", e["a"], e["b"], e["c"]] for e in t["h"]]))
+        ctx.sample(dict(config=cfg, timeout=t["to"], threshold=t["th"], age=t["age"], previous_fees=wv(t["pf"]), schedule=[o["k"] for o in t["sched"]],
+                        log=[e["e"] if e["e"] != "R" else ["R", e["a"], e["b"], wv(e["c"])] for e in t["h"]]))
     return P
 
 
@@ -159,13 +191,19 @@ def run(ctx):
     binary = ctx.build_adapter("waitnext")
     quick = ctx.tier == "quick"
     rng = random.Random(ctx.seed * 7919 + 65)
-    obs_kinds = collections.Counter()
-    plan = [("MC_q.cfg", 150), ("MC_q2.cfg", 60)] if quick else [("MC_t.cfg", 2000), ("MC_t2.cfg", 1000)]
+    obs_kinds = collections.Counter(); fee_cases = collections.Counter()
+    plan = [("MC_q.cfg", 150), ("MC_q2.cfg", 60), ("MC_qw.cfg", 60)] if quick else [("MC_t.cfg", 2000), ("MC_t2.cfg", 1000), ("MC_tw.cfg", 600)]
     maxops = 0
     for cfg, nruns in plan:
-        P = run_config(ctx, binary, cfg, nruns, rng, obs_kinds)
+        P = run_config(ctx, binary, cfg, nruns, rng, obs_kinds, fee_cases)
         maxops = max(maxops, P["maxops"])
     ctx.extra["observed_returns_by_kind"] = dict(obs_kinds)
+    ctx.extra["same_tip_waits_with_finite_threshold_by_fee_class_and_fee_movement"] = dict(sorted(fee_cases.items()))
+    if not ctx.violations:
+        for cls in ("below 2^31", "in [2^31, 2^32)", "from 2^32"):
+            for what in ("nothing: fees unchanged", "nothing: fees rose by less than the threshold", "returned: fees rose by exactly the threshold", "returned: fees rose by more than the threshold"):
+                if not fee_cases["%s / %s" % (cls, what)]:
+                    raise vflib.InfraError("vacuity: no real same-tip wait with previous fees %s where %s" % (cls, what))
     if len(obs_kinds) < 3 and not ctx.violations:
         raise vflib.InfraError("vacuity: the real runs never produced %s" % (set(KINDS) - set(obs_kinds)))
     # ---- liveness under weak fairness (no final interrupt: the return must come from the tip change)
